@@ -271,6 +271,37 @@ class EnumCheck(object):
         return self._bound[tier]
 
 
+class MachineCheck(HypCheck):
+    """A check driven by a Hypothesis rule-based state machine.
+
+    ``machine(st, target)`` returns a RuleBasedStateMachine subclass whose
+    rules record discrepancies in ``st`` (case = the step log so far) and
+    which raises only when ``target`` is a bucket kind that was just hit
+    (used for shrinking).  ``run_case(case, st)`` re-executes a step log
+    directly, bypassing Hypothesis."""
+
+    kind = 'state-machine'
+
+    def __init__(self, name, machine, run_case, budget, rule, steps=40):
+        HypCheck.__init__(self, name, None, run_case, budget, rule)
+        self.machine = machine
+        self.steps = steps
+
+    def bound(self, tier):
+        shards, n = self.budget[tier]
+        return '%d shards x %d runs x <=%d steps' % (shards, n, self.steps)
+
+
+def _machine_settings(n, steps, shrink):
+    from hypothesis import HealthCheck, Phase, settings
+    phases = [Phase.generate, Phase.shrink] if shrink else [Phase.generate]
+    return settings(max_examples=n, stateful_step_count=steps,
+                    database=None, deadline=None, derandomize=False,
+                    report_multiple_bugs=False,
+                    suppress_health_check=list(HealthCheck),
+                    phases=phases, print_blob=False)
+
+
 def guarded(run, case, st):
     """Run ``run(case, st)``; an exception escaping from inside pydiffx is a
     recorded violation, any other exception is a harness error."""
@@ -313,7 +344,17 @@ def _run_task(arg):
     t0 = time.time()
 
     try:
-        if task[0] == 'hyp':
+        if task[0] == 'hyp' and check.kind == 'state-machine':
+            import hypothesis
+            from hypothesis.stateful import run_state_machine_as_test
+            _, shard_seed, n = task
+            cls = hypothesis.seed(shard_seed)(check.machine(st, None))
+            run_state_machine_as_test(
+                cls, settings=_machine_settings(n, check.steps, False))
+
+            for b in st.buckets.values():
+                b['shard'] = [shard_seed, n]
+        elif task[0] == 'hyp':
             import hypothesis
             from hypothesis import given
             _, shard_seed, n = task
@@ -347,6 +388,10 @@ def shrink_bucket(check, kind, shard, cap):
     import hypothesis
     from hypothesis import given
     shard_seed, n = shard
+
+    if check.kind == 'state-machine':
+        return _shrink_machine(check, kind, shard_seed, n)
+
     state = {'best': None, 'after': 0}
 
     @hypothesis.seed(shard_seed)
@@ -382,6 +427,26 @@ def shrink_bucket(check, kind, shard, cap):
         return None
 
     return state['best'][0], state['best'][1]
+
+
+def _shrink_machine(check, kind, shard_seed, n):
+    import hypothesis
+    from hypothesis.stateful import run_state_machine_as_test
+    st = Stats()
+    cls = hypothesis.seed(shard_seed)(check.machine(st, kind))
+
+    try:
+        run_state_machine_as_test(
+            cls, settings=_machine_settings(n, check.steps, True))
+    except BaseException:
+        pass
+
+    last = st.notes.get('last_target_hit')
+
+    if last is None:
+        return None
+
+    return from_jsonable(last['case']), last['detail']
 
 
 # ---------------------------------------------------------------------------
@@ -529,9 +594,10 @@ def run_property(prop, module, tier, seed, only=None, out=sys.stdout):
         detail = b['detail']
         shrunk = False
 
-        if (c.kind == 'hypothesis' and b.get('shard') and i < 6 and
+        if (c.kind in ('hypothesis', 'state-machine') and b.get('shard') and
+                i < 6 and
                 time.time() < shrink_deadline and
-                not os.environ.get('VERIF_NO_SHRINK')):
+                os.environ.get('VERIF_NO_SHRINK', '0') in ('', '0')):
             res = shrink_bucket(c, kind, b['shard'], cap)
 
             if res is not None:
